@@ -92,6 +92,13 @@ TRUSTED["C18"] = [
     "stand-alone real lemmas are proved once and used by substitution (universal instantiation)",
 ]
 
+TRUSTED["C20"] = [
+    "A10: matplotlib renders one marker per finite (x, y) pair of the sequences it is given and none for NaN; Axes are effect recorders "
+    "(the proof is about the recorded plot / scatter / errorbar calls and their argument sequences)",
+    "np.argmax as a first-maximiser contract, log10 as an uninterpreted function",
+    "floor division by a positive symbolic divisor as quotient/remainder with fresh variables",
+]
+
 ASSUMPTIONS = {
     "C09": [
         "a mode-shape vector in a pole table is either entirely non-finite or entirely finite",
@@ -118,7 +125,11 @@ ASSUMPTIONS["C04"] = ["number of setups enumerated (2); reference/roving counts,
 ASSUMPTIONS["C18"] = ["all statements are over the reals: an arccos argument or a MAC value rounded just above 1 in floating point is outside the model "
                       "(the nansum repair of MPD happens to cover the arccos case)"]
 
+ASSUMPTIONS["C20"] = ["scope of the order-value clause: step == 1 (the ordinate c*step equals the column index that modal-parameter extraction "
+                      "accepts only then; the SSI pole computation does not support step > 1 at all)"]
+
 NOT_DECIDED = {
+    "C20": ["what matplotlib draws for the recorded calls (A10)"],
     "C18": ["invariance of MPD under a complex factor (needs equivariance of the SVD's right singular vectors)",
             "floating-point rounding (e.g. MAC = 1.0000000000000002 on collinear shapes)"],
     "C13": ["what scipy's csd computes (Hermitian PSD, Welch equivalence, Parseval, gain-and-delay phase, sinusoid amplitudes): statements about scipy; "
